@@ -115,6 +115,9 @@ m("c08-run-masks-interrupt",["C08"],"cpu.go","\t\tcpu.Step()\n\t\tif cpu.BreakPo
 m("c08-halt-set-by-di",["C08","C01"],"op_ctrl.go","func oopDI(cpu *CPU) {\n\tcpu.IFF1 = false","func oopDI(cpu *CPU) {\n\tcpu.HALT = cpu.HALT || !cpu.IFF1 && !cpu.IFF2 && cpu.IM == 3\n\tcpu.IFF1 = false",note="another instruction sets the halted indication in a rare state")
 m("c08-return-nil-refactor",["C08","C13"],"cpu.go","\t\tif cpu.HALT {\n\t\t\tbreak\n\t\t}\n\t}\n\treturn nil","\t\tif cpu.HALT {\n\t\t\treturn nil\n\t\t}\n\t}",expect="silent",note="break replaced by return nil")
 m("c08-bp-lookup-without-nil-test",["C08"],"cpu.go","\t\tif cpu.BreakPoints != nil {\n\t\t\tif _, ok := cpu.BreakPoints[cpu.PC]; ok {\n\t\t\t\treturn ErrBreakPoint\n\t\t\t}\n\t\t}","\t\tif _, ok := cpu.BreakPoints[cpu.PC]; ok {\n\t\t\treturn ErrBreakPoint\n\t\t}",expect="silent",note="lookup in a nil map is fine: redundant nil test removed")
+m("c08-helper-refactor",["C08","C13","C12"],"cpu.go","\t\tif cpu.BreakPoints != nil {\n\t\t\tif _, ok := cpu.BreakPoints[cpu.PC]; ok {\n\t\t\t\treturn ErrBreakPoint\n\t\t\t}\n\t\t}","\t\tif cpu.atBreakPoint() {\n\t\t\treturn ErrBreakPoint\n\t\t}",edits=[{"file":"z80.go","old":"","new":"func (cpu *CPU) atBreakPoint() bool {\n\tif cpu.BreakPoints == nil {\n\t\treturn false\n\t}\n\t_, ok := cpu.BreakPoints[cpu.PC]\n\treturn ok\n}\n"}],expect="silent",note="breakpoint test moved into a read-only helper method")
+m("c08-helper-halt-first",["C08"],"cpu.go","\t\tif cpu.BreakPoints != nil {\n\t\t\tif _, ok := cpu.BreakPoints[cpu.PC]; ok {\n\t\t\t\treturn ErrBreakPoint\n\t\t\t}\n\t\t}\n\t\tif cpu.HALT {\n\t\t\tbreak\n\t\t}","\t\tif cpu.HALT {\n\t\t\tbreak\n\t\t}\n\t\tif cpu.atBreakPoint() {\n\t\t\treturn ErrBreakPoint\n\t\t}",edits=[{"file":"z80.go","old":"","new":"func (cpu *CPU) atBreakPoint() bool {\n\t_, ok := cpu.BreakPoints[cpu.PC]\n\treturn ok\n}\n"}],note="helper used, but HALT tested first")
+
 # ---- C13
 m("c13-no-defer-cancel",["C13"],"cpu.go","\tdefer cancel()\n","\t_ = cancel\n",note="watcher leaks when Run returns on HALT and the caller never cancels")
 m("c13-plain-flag-read",["C13"],"cpu.go","if atomic.LoadInt32(&canceled) != 0 {","if canceled != 0 {")
